@@ -1,6 +1,8 @@
 //! `vh` — conformance harness binding the TLA+ specifications in /verif/spec to the
 //! brave/sta-rs crates built from /repo's working tree.
+mod field;
 mod ggm;
+mod shamir;
 mod srv;
 mod star;
 mod star2;
@@ -17,6 +19,9 @@ fn main() {
   }
   let a = Args::parse(&argv[1..]);
   let rep = match argv[0].as_str() {
+    "field-record" => field::record(&a),
+    "shamir-record" => shamir::record(&a),
+    "cert-record" => shamir::cert(&a),
     "ggm-replay" => ggm::replay(&a),
     "ggm-record" => ggm::record(&a),
     "ggm-pairs" => ggm::pairs(&a),
@@ -27,6 +32,7 @@ fn main() {
     "star-record" => star2::record(&a),
     "tamper-sweep" => star2::tamper_sweep(&a),
     "adss-sizes" => star2::adss_sizes(&a),
+    "secret-scan" => star2::secret_scan(&a),
     other => {
       eprintln!("unknown subcommand {other}");
       std::process::exit(2);
